@@ -202,6 +202,75 @@ func viaDumpLoad(src []byte) (o progObs, ok bool) {
 	return o, ok || o.Panic != ""
 }
 
+// eofDataReader hands over everything it has in one read, together with io.EOF
+type eofDataReader struct {
+	data []byte
+	done bool
+}
+
+func (r *eofDataReader) Read(p []byte) (int, error) {
+	if r.done || len(r.data) == 0 {
+		return 0, io.EOF
+	}
+	n := copy(p, r.data)
+	r.data = r.data[n:]
+	if len(r.data) == 0 {
+		r.done = true
+		return n, io.EOF
+	}
+	return n, nil
+}
+func (r *eofDataReader) Close() error { return nil }
+func (r *eofDataReader) Name() string { return "input" }
+
+// viaFile runs the program through InterpretFile from a reader that delivers its last data together with io.EOF
+func viaFile(src []byte) (o progObs) {
+	var out, lg bytes.Buffer
+	func() {
+		defer func() {
+			if r := recover(); r != nil {
+				o.Panic = fmt.Sprint(r)
+				o.Site = panicSite()
+			}
+		}()
+		o.res, o.bind, o.err = bcl.InterpretFile(&eofDataReader{data: append([]byte{}, src...)}, bcl.OptOutput(&out), bcl.OptLogger(&lg))
+	}()
+	if o.err != nil {
+		o.Err = o.err.Error()
+	}
+	o.Out, o.Log, o.Result = out.String(), lg.String(), o.res
+	o.Binding = fmt.Sprintf("%+v", o.bind)
+	return o
+}
+
+// viaReexec parses once and executes twice; the observation is that of the second execution (a Prog is not used up by running it)
+func viaReexec(src []byte) (o progObs, ok bool) {
+	var out, lg bytes.Buffer
+	func() {
+		defer func() {
+			if r := recover(); r != nil {
+				o.Panic = fmt.Sprint(r)
+				o.Site = panicSite()
+			}
+		}()
+		p, err := bcl.Parse(src, "input", bcl.OptOutput(&out), bcl.OptLogger(&lg))
+		if err != nil {
+			return
+		}
+		bcl.Execute(p)
+		out.Reset()
+		lg.Reset()
+		ok = true
+		o.res, o.bind, o.err = bcl.Execute(p)
+	}()
+	if o.err != nil {
+		o.Err = o.err.Error()
+	}
+	o.Out, o.Log, o.Result = out.String(), lg.String(), o.res
+	o.Binding = fmt.Sprintf("%+v", o.bind)
+	return o, ok || o.Panic != ""
+}
+
 var rtErrRe = regexp.MustCompile(`^runtime error: line \d+:\d+: `)
 
 // judgeProg compares one observation with the predicted meaning; returns (why, shape, driftNote)
@@ -323,6 +392,16 @@ func replayProg(args []string) int {
 				if wl, sl, _ := judgeProg(&c, ol); wl != "" {
 					s.bad("after Dump and LoadProg: "+wl, "loaded:"+sl, raw, ol, true)
 				}
+			}
+			// the same program executed a second time from the same Prog, and through InterpretFile from a reader that gives its
+			// last bytes together with io.EOF: same meaning
+			if ox, ok := viaReexec(src); ok {
+				if wl, sl, _ := judgeProg(&c, ox); wl != "" {
+					s.bad("second execution of the same Prog: "+wl, "reexec:"+sl, raw, ox, true)
+				}
+			}
+			if wl, sl, _ := judgeProg(&c, viaFile(src)); wl != "" {
+				s.bad("through InterpretFile (data together with EOF): "+wl, "file:"+sl, raw, nil, true)
 			}
 		}
 	})
